@@ -16,14 +16,22 @@ from .. import tokenize as T
 PROP = "C11"
 
 
-def render(p, scale=0):
+def render(p, scale=0, pool=None):
     pad = ("_" + "x" * 200) if scale else ""
     out = [".msp430"]
     if scale:
         for i in range(scale):
             out.append("filler_%04d%s:" % (i, "y" * 60))
+    if pool:
+        # pool = (fillers, length of one more filler name): the fillers end near the end of the first 32 KiB pool;
+        # names are padded by 230 characters (a), not at all (b, f)
+        for i in range(pool[0]):
+            out.append("filler_%04d%s:" % (i, "y" * 60))
+        out.append("adjust_%s:" % ("z" * pool[1]))
     for s in p:
         k = s["k"]
+        if pool:
+            pad = ("_" + "w" * 230) if s.get("n") == "a" else ""
         if k == "label":
             out.append("%s%s:" % (s["n"], pad))
         elif k == "use":
@@ -43,7 +51,7 @@ def render(p, scale=0):
     return "\n".join(out) + "\n"
 
 
-def observe(rec, path, p, scale):
+def observe(rec, path, p, scale, pool=None):
     if rec.get("died"):
         return {"k": "crash", "why": rec.get("san") or "signal %s" % rec.get("sig")}
     if rec["r1"] != 0 or rec["r2"] != 0:
@@ -53,7 +61,7 @@ def observe(rec, path, p, scale):
         data += bytes.fromhex(h)
     words = [int.from_bytes(data[i:i + 4], "little") for i in range(0, len(data), 4)]
     exports = []
-    pad = ("_" + "x" * 200) if scale else ""
+    pad = ("_" + "x" * 200) if scale else (("_" + "w" * 230) if pool else "")
     fi = rec["files"]["elf"]
     elf = T.lex_elf(open(fi["path"], "rb").read())
     os.unlink(fi["path"])
@@ -71,9 +79,13 @@ def run(tier, seed):
     rnd = random.Random(seed)
     vdir = C.ensure_build("rel")
     rd = chk.rundir
-    g = C.tlc("GenSym", "gen_Sym_%s.cfg" % tier, rd, workers=8, heap="8g")
+    g = C.tlc("GenSym", "gen_Sym_%s.cfg" % tier, rd, workers=8, heap="8g", prefixes=("CASE ", "POOL "))
     chk.add_tlc(g)
     progs = C.parse_payload(g.lines, "CASE ")
+    pp = C.parse_payload(g.lines, "POOL ")
+    if not pp or len(pp[0]) < 8:
+        raise C.InfraError("no pool programs")
+    poolprogs = sorted(pp[0], key=lambda x: json.dumps(x, sort_keys=True))
     if len(progs) < 20000:
         raise C.InfraError("only %d programs" % len(progs))
     total = len(progs)
@@ -89,14 +101,33 @@ def run(tier, seed):
         cid = "y%d" % i
         meta[cid] = (i, scale)
         cases.append((cid, "types=elf prefix=%s/ imgmax=4000" % fdir, render(p, scale)))
+    # pool boundary sweep: an entry of the symbol table takes its name and a few bytes; 405..420 fillers of 71 characters
+    # and one of 7..87 put the end of the first 32 KiB pool at every distance from the program's first label
+    pmeta = {}
+    sweep = [(f, l) for f in range(404, 422) for l in range(0, 80, 8)]
+    if tier == "quick":
+        sweep = rnd.sample(sweep, 36)
+    for j, p in enumerate(poolprogs):
+        for (f, l) in (sweep if tier == "thorough" else sweep[j % 3::3]):
+            cid = "z%d.%d.%d" % (j, f, l)
+            pmeta[cid] = (j, (f, l))
+            cases.append((cid, "types=elf prefix=%s/ imgmax=4000" % fdir, render(p, 0, (f, l))))
     obs = C.conform_parallel(vdir, "file", cases, rd, "c11", 20, nproc=C.NCPU)
     byid = {o["case"]: o for o in obs}
     events = []
     for c in cases:
-        i, scale = meta[c[0]]
         o = byid.get(c[0])
         if o is None:
             raise C.InfraError("missing " + c[0])
+        if c[0] in pmeta:
+            j, pool = pmeta[c[0]]
+            ob = observe(o, None, poolprogs[j], 0, pool)
+            if ob["k"] in ("crash", "badelf"):
+                chk.report("sym:%s:pool:%s" % (ob["k"], json.dumps(poolprogs[j])[:120]), "%s on a pool sweep program" % ob, dict(source=c[2][-600:], observed=ob))
+            elif not any(w >= (1 << 31) for w in ob["words"]):
+                events.append({"id": c[0], "prog": poolprogs[j], "obs": ob})
+            continue
+        i, scale = meta[c[0]]
         ob = observe(o, None, progs[i], scale)
         if ob["k"] in ("crash", "badelf"):
             chk.report("sym:%s:%s" % (ob["k"], json.dumps(progs[i])[:150]), "%s on\n%s" % (ob, c[2][:400]), dict(source=c[2][:2000], observed=ob))
@@ -119,7 +150,13 @@ def run(tier, seed):
     missed = [c for c in canaries if c not in bad]
     if missed:
         raise C.InfraError("canaries accepted: %s" % missed[:3])
-    fails = sorted((cid for cid in bad if cid not in canaries), key=lambda c: len(progs[meta[c][0]]))
+    for cid in sorted(bad):
+        if cid in pmeta:
+            j, pool = pmeta[cid]
+            chk.report("sym:pool:%s:%s" % (bad[cid]["why"].split(" ")[0], json.dumps(poolprogs[j], separators=(",", ":"))[:140]),
+                       "%s (after %d fillers and one of %d characters)\n%s" % (bad[cid]["why"], pool[0], pool[1] + 7, render(poolprogs[j])),
+                       dict(source=render(poolprogs[j], 0, pool)[-1500:], fillers=pool[0], adjust=pool[1], why=bad[cid]["why"]))
+    fails = sorted((cid for cid in bad if cid not in canaries and cid not in pmeta), key=lambda c: len(progs[meta[c][0]]))
     minimal = []
     for cid in fails:
         i, scale = meta[cid]
@@ -142,7 +179,7 @@ def run(tier, seed):
         rule="TLC enumerates every program of up to 4 (thorough 5) statements over 13 statement kinds; quick runs all of length <= 3 "
              "and 12,000 seeded longer ones; a seeded subset is rendered with 200-character names after 400 filler labels (several "
              "symbol pools); non-trivial = has a use and a scope/function; distinct by abstract program",
-        traces_validated_against_impl=len(events) - len(canaries), scaled=nscaled,
+        traces_validated_against_impl=len(events) - len(canaries), scaled=nscaled, pool_sweep=len(pmeta),
         canaries=dict(injected=len(canaries), rejected=len(canaries)), exhaustive=(tier == "thorough")))
     chk.samples = [render(p) for p in rnd.sample(progs, 3)]
     chk.assumptions = [".set mixed with labels of the same name, a .set used before its first assignment and .set inside a scope are "
